@@ -377,6 +377,9 @@ func (p *pr) show(v reflect.Value, n0 int, path []string, shared *[]string, unde
 			kk := map[reflect.Kind]string{reflect.Ptr: "p", reflect.Slice: "s", reflect.Map: "m"}[v.Kind()]
 			if st, ok := srcTypes[fmt.Sprintf("%s:%d", kk, a)]; ok && shared != nil && st != v.Type() {
 				p.nonident = append(p.nonident, fmt.Sprintf("%s shared as %s", st, v.Type()))
+			} else if !ok && shared != nil && (kk == "p" || kk == "s") {
+				// the address of a source field / element: no source position holds this pointer at all
+				p.nonident = append(p.nonident, fmt.Sprintf("%s at [%s] points into the source value (address of a source field or element)", v.Type(), strings.Join(path, "; ")))
 			}
 			return 2
 		}
